@@ -714,6 +714,15 @@ class PE:
             else:
                 args.append(self.expr(a, env, func, depth))
         kw = {k.arg: self.expr(k.value, env, func, depth) for k in e.keywords if k.arg is not None}
+        if name and name.startswith('numpy.') and kw:
+            # NumPy call spelled with keywords: bind to positions by the signature so that hooks / builtins see one spelling
+            from .npcanon import SIG
+            sig = SIG.get(name[6:])
+            if sig and len(args) <= len(sig):
+                i = len(args)
+                while i < len(sig) and sig[i] in kw and sig[i] not in ('dtype', 'out', 'keepdims', 'axis', 'mode', 'ddof'):
+                    args.append(kw.pop(sig[i]))
+                    i += 1
         ctext = name
         if ctext is None and isinstance(e.func, ast.Attribute):
             ctext = '%s.%s' % (self.loc_text(e.func.value, env, func, depth) if isinstance(e.func.value, (ast.Name, ast.Attribute, ast.Subscript, ast.Call)) else norm(e.func.value), e.func.attr)
